@@ -17,7 +17,7 @@ PROBES = ["workers>1", "switches>0", "multi_file", "unequal_file_sizes", "parque
           "pred_chunks>=2", "train_chunks>=2", "switch_in_get_rows", "switch_in_predict_fold",
           "scan_only_key", "four_col_key", "multi_psm_spectra", "fallback_best_feature",
           "brew_raised", "fold_without_accept", "dup_scan_other_mass", "pct_schedule", "pred_chunk_lacks_fold",
-          "proba_only_learner", "learner_with_both_methods", "tied_raw_outputs"]
+          "proba_only_learner", "learner_with_both_methods", "tied_raw_outputs", "same_files_analysed_before_in_process"]
 
 
 def make_scenario(prop, seed):
@@ -71,7 +71,12 @@ def make_scenario(prop, seed):
     if rng.random() < 0.3:
         kn["CHUNK_SIZE_COLUMNS_FOR_DROP_COLUMNS"] = rng.randint(1, 25)
     fmt = rng.choice(["pin", "pin", "parquet"])
+    prior = None
+    if rng.random() < 0.25:
+        # the same files were already analysed earlier in this process, with another fold count / seed
+        prior = {"folds": rng.choice([f for f in (2, 3, 4, 5) if f != folds]), "seed": rng.randint(0, 10**6)}
     return {
+        "prior": prior,
         "property": prop,
         "seed": seed,
         "data": dp,
@@ -111,6 +116,11 @@ def run_scenario(scn, workdir, want):
     """want: "C02" or "C11" - which oracle's clauses count as violations."""
     tables = P.build_tables(scn["data"])
     cfg = scn["cfg"]
+    if scn.get("prior"):
+        cfg0 = dict(cfg)
+        cfg0.update(folds=scn["prior"]["folds"], seed=scn["prior"]["seed"], max_workers=1, subset_max_train=None, override=True)
+        P.run_pipeline(tables, cfg0, workdir, "run", fmt=scn["format"], row_group=scn.get("row_group"),
+                       sched_desc={"mode": "fifo"}, knobs=None, stop_after="brew")
     estimators.REGISTRY.clear()
     res = P.run_pipeline(tables, cfg, workdir, "run", fmt=scn["format"], row_group=scn.get("row_group"),
                          sched_desc=scn.get("sched"), knobs=scn.get("knobs"))
@@ -134,6 +144,7 @@ def run_scenario(scn, workdir, want):
         "four_col_key": int(len(spec_cols) == 4),
         "pct_schedule": int((scn.get("sched") or {}).get("mode") == "pct"),
         "proba_only_learner": int(cfg["learner"] == "plda"),
+        "same_files_analysed_before_in_process": int(bool(scn.get("prior"))),
         "learner_with_both_methods": int(cfg["learner"] == "blda"),
         "tied_raw_outputs": int(bool((cfg.get("est_kw") or {}).get("round_out") is not None)),
         "dup_scan_other_mass": int(bool(scn["data"].get("dup_scan_frac")) and "ExpMass" in scn["data"]["spec_extra"]),
@@ -141,7 +152,7 @@ def run_scenario(scn, workdir, want):
     }
     out = {
         "status": "ok",
-        "digest": digest([scn["data"], cfg, scn["format"], scn.get("row_group"), kn, world.sched_digest(sch)]),
+        "digest": digest([scn["data"], cfg, scn.get("prior"), scn["format"], scn.get("row_group"), kn, world.sched_digest(sch)]),
         "nontrivial": bool(cfg["max_workers"] > 1 or probes["pred_chunks>=2"] or probes["train_chunks>=2"]
                            or len(tables) > 1 or cfg.get("subset_max_train")),
         "probes": probes,
@@ -401,6 +412,8 @@ def _check_calibration_error(tables, cfg):
 def shrink_candidates(scn):
     cfg = scn["cfg"]
     dp = scn["data"]
+    if scn.get("prior"):
+        c = clone(scn); c["prior"] = None; yield c
     if cfg["max_workers"] > 1:
         c = clone(scn); c["cfg"]["max_workers"] = 1; c["sched"] = {"mode": "fifo"}; yield c
         c = clone(scn); c["cfg"]["max_workers"] = 2; yield c
